@@ -333,7 +333,7 @@ Section Preserve2.
       destruct (contains_anon c); inv_ok.
       assert (Hva' : va_M (Some (Variable_ m a []))) by (simpl; auto).
       destruct (IHs _ Hva' Hb _ _ Ha0) as [? ?].
-      destruct (negb (is_nil l)); inv_ok.
+      destruct (existsb (decl_uses_counter a) l); inv_ok.
       + split.
         * simpl. repeat split; auto.
         * repeat constructor; simpl; auto.
